@@ -39,6 +39,8 @@ reaches the rules in the same shape:
   K18 for i in range(len(X)): .. X[i] ..  ->  for i, e in enumerate(X): .. e ..
                                       (X a name the body only reads as X[i]
                                       or len(X); i not re-bound)
+  K19 opts = {"a": x}; f(**opts)  ->  f(a=x)   (constant keys, plain values,
+                                      opts used only as **opts)
   K9  t = delayed(f); t(x)        ->  delayed(f)(x)     (t bound once and
                                       used only as a callee)
 
@@ -258,7 +260,101 @@ class Canon(ast.NodeTransformer):
         self.generic_visit(node)
         self.cur_fn = prev
         self._inline_task_aliases(node)
+        self._spread_keyword_dicts(node)
         return node
+
+    def _spread_keyword_dicts(self, fn):
+        """K19  opts = {"a": x, "b": y} ... f(p, **opts)  ->  f(p, a=x, b=y)
+        (opts bound once to a display with constant string keys and plain
+        values - names, attribute chains, constants - whose root names are
+        bound at most once, before the display; opts used only as **opts)
+        and  f(**{"a": x})  ->  f(a=x)."""
+        parents = {}
+        for n in ast.walk(fn):
+            for ch in ast.iter_child_nodes(n):
+                parents[id(ch)] = n
+
+        def const_keys(d):
+            return isinstance(d, ast.Dict) and d.keys and all(
+                isinstance(k, ast.Constant) and isinstance(k.value, str)
+                and k.value.isidentifier() for k in d.keys)
+
+        # direct: f(**{...})
+        for n in ast.walk(fn):
+            if isinstance(n, ast.Call):
+                new_kws, changed = [], False
+                for kw in n.keywords:
+                    if kw.arg is None and const_keys(kw.value) and not (
+                            {k.value for k in kw.value.keys}
+                            & {k2.arg for k2 in n.keywords}):
+                        for k, v in zip(kw.value.keys, kw.value.values):
+                            new_kws.append(ast.keyword(arg=k.value, value=v))
+                        changed = True
+                    else:
+                        new_kws.append(kw)
+                if changed:
+                    n.keywords = new_kws
+                    self.applied["K19"] = self.applied.get("K19", 0) + 1
+        # through a name
+        stores = {}
+        for n in ast.walk(fn):
+            if isinstance(n, ast.Name) and isinstance(
+                    n.ctx, (ast.Store, ast.Del)):
+                stores.setdefault(n.id, []).append(n)
+        params = {a.arg for a in fn.args.args + fn.args.kwonlyargs
+                  + fn.args.posonlyargs}
+        for st in list(ast.walk(fn)):
+            if not (isinstance(st, ast.Assign) and len(st.targets) == 1
+                    and isinstance(st.targets[0], ast.Name)
+                    and const_keys(st.value)):
+                continue
+            name = st.targets[0].id
+            if len(stores.get(name, [])) != 1 or name in params:
+                continue
+            if not all(_plain(v) for v in st.value.values):
+                continue
+            roots = {x.id for v in st.value.values for x in ast.walk(v)
+                     if isinstance(x, ast.Name)}
+            if any(len(stores.get(r, [])) > 1 or any(
+                    getattr(s_, "lineno", 0) >= st.lineno
+                    for s_ in stores.get(r, [])) for r in roots):
+                continue
+            uses = [n for n in ast.walk(fn) if isinstance(n, ast.Name)
+                    and n.id == name and isinstance(n.ctx, ast.Load)]
+            if not uses or not all(
+                    isinstance(parents.get(id(u)), ast.keyword)
+                    and parents[id(u)].arg is None for u in uses):
+                continue
+            ok = True
+            for u in uses:
+                call = parents.get(id(parents[id(u)]))
+                if not isinstance(call, ast.Call) or (
+                        {k.value for k in st.value.keys}
+                        & {k2.arg for k2 in call.keywords}):
+                    ok = False
+            if not ok:
+                continue
+            for u in uses:
+                kwn = parents[id(u)]
+                call = parents[id(kwn)]
+                new_kws = []
+                for kw in call.keywords:
+                    if kw is kwn:
+                        for k, v in zip(st.value.keys, st.value.values):
+                            new_kws.append(ast.keyword(arg=k.value,
+                                                       value=_copy(v)))
+                    else:
+                        new_kws.append(kw)
+                call.keywords = new_kws
+                ast.fix_missing_locations(call)
+            # the display itself is now unused: drop the binding
+            holder = parents.get(id(st))
+            for field in ("body", "orelse", "finalbody"):
+                lst = getattr(holder, field, None)
+                if isinstance(lst, list) and any(x is st for x in lst):
+                    lst[:] = [x for x in lst if x is not st] or [
+                        ast.copy_location(ast.Pass(), st)]
+            self.applied["K19"] = self.applied.get("K19", 0) + 1
 
     def _inline_task_aliases(self, fn):
         """K9  t = delayed(f) ... t(args)  ->  delayed(f)(args)   (t bound
